@@ -1,390 +1,268 @@
-import AkVerif.Model.SrcPos
+import AkVerif.Lemmas.SrcPosTok
+import AkVerif.Lemmas.SrcPosCover
+import AkVerif.Lemmas.SrcPosText
+import AkVerif.Lemmas.SrcPosTree
 /-!
-Helper lemmas for C04 (core Lean only).
-
-`Run` is a fuel-free, relational description of one successful pass of `scanLine` (with the offsets the
-source has today, `Bases.std`); `scanLine_run` shows that every successful run of the executable model is
-such a pass, all invariants are then proved by induction on `Run`.
+Helper lemmas for C04 (core Lean only): `SrcPosTok` (the tokenizer), `SrcPosText` (text and
+`get_orig_text`), `SrcPosTree` (node spans), and here what combines them.
 -/
 namespace SrcPos
 open Ak
 
-theorem Pos.le_def (a b : Pos) : a ≤ b ↔ a.line < b.line ∨ (a.line = b.line ∧ a.col ≤ b.col) := Iff.rfl
-theorem Pos.lt_def (a b : Pos) : a < b ↔ a.line < b.line ∨ (a.line = b.line ∧ a.col < b.col) := Iff.rfl
+/-- every match ends inside its line -/
+def ReIn (re : Re) (lines : List (List Char)) : Prop :=
+  (∀ i c m l, re.norm i c = some m → lines[i]? = some l → m.stop ≤ l.length) ∧
+  (∀ k i c m l, re.body k i c = some m → lines[i]? = some l → m.stop ≤ l.length)
 
-theorem Pos.le_refl (a : Pos) : a ≤ a := by simp [Pos.le_def]
-theorem Pos.le_trans {a b c : Pos} (h1 : a ≤ b) (h2 : b ≤ c) : a ≤ c := by
-  simp only [Pos.le_def] at *; omega
-theorem Pos.lt_of_lt_of_le {a b c : Pos} (h1 : a < b) (h2 : b ≤ c) : a < c := by
-  simp only [Pos.le_def, Pos.lt_def] at *; omega
-theorem Pos.lt_of_le_of_lt {a b c : Pos} (h1 : a ≤ b) (h2 : b < c) : a < c := by
-  simp only [Pos.le_def, Pos.lt_def] at *; omega
-theorem Pos.le_of_lt {a b : Pos} (h : a < b) : a ≤ b := by
-  simp only [Pos.le_def, Pos.lt_def] at *; omega
-theorem Pos.ne_of_lt {a b : Pos} (h : a < b) : a ≠ b := by
-  intro e; subst e; simp only [Pos.lt_def] at h; omega
-theorem Pos.ext' {a b : Pos} (h1 : a.line = b.line) (h2 : a.col = b.col) : a = b := by
-  cases a; cases b; simp_all
+/-- an ordinary token: `get_orig_text` is the lexeme (everything `re` matched), which is also the
+slice of the whole text between the token's offsets -/
+theorem plain_orig {cfg : Cfg} {re : Re} {lines olines : List (List Char)} {t : Tok} {i c : Nat} {m : Match}
+    (hp : IsPlain cfg re lines t i c m) (hre : ReIn re lines) (hext : Ext lines olines) :
+    ∃ line, lines[i]? = some line ∧
+      getOrigText Bases.std olines t.s t.e = .ok (slice line c m.stop) ∧
+      slice line c m.stop = slice (joinNl olines) (offset olines i c) (offset olines i m.stop) := by
+  obtain ⟨line, hl, hc, hm, hadv, _, rfl⟩ := hp
+  obtain ⟨r, hr⟩ := hext i line hl
+  have hstop : m.stop ≤ line.length := hre.1 i c m line hm hl
+  refine ⟨line, hl, ?_, ?_⟩
+  · simp only [plainTok]
+    rw [getOrigText_sameLine hr (by omega) (by simp; omega), slice_append_left _ _ _ _ hstop]
+  · rw [flat_same hr (by simp; omega), slice_append_left _ _ _ _ hstop]
 
-/-! ## one pass over a line, relationally -/
-
-def plainTok (cfg : Cfg) (i : Nat) (line : List Char) (col : Nat) (m : Match) : Tok :=
-  ⟨cfg.kw (cfg.syn m.kind) (slice line m.gs m.ge), some (slice line m.gs m.ge),
-    ⟨1 + i, col + 1⟩, ⟨1 + i, m.stop + 1⟩⟩
-
-def spanTok (cfg : Cfg) (i : Nat) (line : List Char) (sp : SpanSt) (m : Match) : Tok :=
-  ⟨cfg.syn sp.kind, some (joinNl (sp.acc ++ [slice line m.gs m.ge])), sp.start, ⟨1 + i, m.stop + 1⟩⟩
-
-inductive Run (cfg : Cfg) (re : Re) (i : Nat) (line : List Char) : Nat → St → St → List Tok → Prop
-  | done {col st} : ¬ col < line.length → Run cfg re i line col st st []
-  | spanMiss {col st sp} : col < line.length → st.span = some sp → re.body sp.kind i col = none →
-      Run cfg re i line col st ⟨st.prevEnd, some { sp with acc := sp.acc ++ [line.drop col] }⟩ []
-  | spanClose {col st sp m st' ts} : col < line.length → st.span = some sp →
-      re.body sp.kind i col = some m → col < m.stop →
-      Run cfg re i line m.stop ⟨⟨1 + i, m.stop + 1⟩, none⟩ st' ts →
-      Run cfg re i line col st st' (spanTok cfg i line sp m :: ts)
-  | opener {col st m st' ts} : col < line.length → st.span = none → re.norm i col = some m → col < m.stop →
-      m.kind ∈ cfg.spanKinds →
-      Run cfg re i line m.stop ⟨st.prevEnd, some ⟨m.kind, ⟨1 + i, col + 1⟩, []⟩⟩ st' ts →
-      Run cfg re i line col st st' ts
-  | token {col st m st' ts} : col < line.length → st.span = none → re.norm i col = some m → col < m.stop →
-      ¬ m.kind ∈ cfg.spanKinds →
-      Run cfg re i line m.stop ⟨⟨1 + i, m.stop + 1⟩, none⟩ st' ts →
-      Run cfg re i line col st st' (plainTok cfg i line col m :: ts)
-
-theorem scanLine_run (cfg : Cfg) (re : Re) (i : Nat) (line : List Char) (fuel col : Nat) (st : St) :
-    ∀ st' ts, scanLine Bases.std cfg re i line fuel col st = .ok (st', ts) →
-      Run cfg re i line col st st' ts := by
-  fun_induction scanLine Bases.std cfg re i line fuel col st <;> intro st' ts h
-  all_goals first | (cases h; done) | skip
-  · cases h; exact .done (by assumption)
-  · cases h
-    rename_i st hlt sp hs hb
-    exact .spanMiss hlt hs hb
-  · rename_i st hlt lineId sp hs m hm hadv e t st1 ts1 hrec ih
-    cases h
-    have := ih _ _ hrec
-    simp +zetaDelta only [Bases.std] at this
-    exact .spanClose hlt hs hm hadv this
-  · rename_i st hlt lineId hs m hm hadv here start hk ih
-    have hst : start = here := by
-      simp +zetaDelta only; split <;> simp_all
-    have := ih _ _ h
-    rw [hst] at this
-    simp +zetaDelta only [Bases.std] at this
-    exact .opener hlt hs hm hadv hk this
-  · rename_i col st hlt lineId hs m hm hadv here start hk v e t st1 ts1 hrec ih
-    cases h
-    have hst : start = here := by
-      simp +zetaDelta only; split <;> simp_all
-    have := ih _ _ hrec
-    simp +zetaDelta only [Bases.std] at this
-    have ht : t = plainTok cfg i line col m := by
-      simp +zetaDelta only [plainTok, Bases.std]
-      simp +zetaDelta only [Bases.std] at hst
-      rw [hst]
-    rw [ht]
-    exact .token hlt hs hm hadv hk this
-  · cases h; exact .done (by assumption)
-
-/-- every successful `scanLines` is a sequence of passes -/
-inductive RunLines (cfg : Cfg) (re : Re) : Nat → List (List Char) → St → St → List Tok → Prop
-  | nil {i st} : RunLines cfg re i [] st st []
-  | cons {i l ls st st1 st2 ts1 ts2} : Run cfg re i l 0 st st1 ts1 → RunLines cfg re (i + 1) ls st1 st2 ts2 →
-      RunLines cfg re i (l :: ls) st st2 (ts1 ++ ts2)
-
-theorem scanLines_run (cfg : Cfg) (re : Re) (lines : List (List Char)) :
-    ∀ i st st' ts, scanLines Bases.std cfg re i lines st = .ok (st', ts) →
-      RunLines cfg re i lines st st' ts := by
-  induction lines with
-  | nil => intro i st st' ts h; simp [scanLines] at h; obtain ⟨rfl, rfl⟩ := h; exact .nil
-  | cons l ls ih =>
-    intro i st st' ts h
-    unfold scanLines at h
-    split at h
-    · cases h
-    · rename_i st1 ts1 h1
-      split at h
-      · cases h
-      · rename_i st2 ts2 h2
-        cases h
-        exact .cons (scanLine_run _ _ _ _ _ _ _ _ _ h1) (ih _ _ _ _ h2)
-
-/-! ## adjacency, line starts, monotonicity -/
-
-/-- `b` continues where `a` ended, or `b` is at column 1 of a later line -/
-def Rel (a b : Pos) : Prop := a = b ∨ (b.col = 1 ∧ a.line < b.line)
-
-theorem Rel.le {a b : Pos} (h : Rel a b) : a ≤ b := by
-  rcases h with rfl | ⟨_, h⟩
-  · exact Pos.le_refl _
+/-- a span token: `get_orig_text` is the whole region of the text from the first character of the
+opener to the last character of the closer -/
+theorem span_orig {cfg : Cfg} {re : Re} {lines olines : List (List Char)} {t : Tok} {i c : Nat} {m : Match}
+    {j d : Nat} {m' : Match} (hs : IsSpanTok cfg re lines t i c m j d m') (hre : ReIn re lines)
+    (hext : Ext lines olines) :
+    getOrigText Bases.std olines t.s t.e =
+      .ok (slice (joinNl olines) (offset olines i c) (offset olines j m'.stop)) := by
+  obtain ⟨⟨li, hli, hc, hm, hadv, _⟩, ⟨lj, hlj, hd⟩, hb, hadv', hord, _, hts, hte⟩ := hs
+  obtain ⟨ri, hri⟩ := hext i li hli
+  obtain ⟨rj, hrj⟩ := hext j lj hlj
+  have h1 : m.stop ≤ li.length := hre.1 i c m li hm hli
+  have h2 : m'.stop ≤ lj.length := hre.2 _ j d m' lj hb hlj
+  rw [hts, hte]
+  apply getOrigText_flat hri hrj (by simp; omega) (by simp; omega)
+  rcases hord with h | ⟨rfl, h⟩
   · exact Or.inl h
+  · exact Or.inr ⟨rfl, by omega⟩
 
-def Linked : Pos → List Tok → Prop
-  | _, [] => True
-  | p, t :: ts => Rel p t.s ∧ Linked t.e ts
-
-def lastEnd : Pos → List Tok → Pos
-  | p, [] => p
-  | _, t :: ts => lastEnd t.e ts
-
-theorem Linked_append (p : Pos) (a b : List Tok) :
-    Linked p (a ++ b) ↔ Linked p a ∧ Linked (lastEnd p a) b := by
-  induction a generalizing p with
-  | nil => simp [Linked, lastEnd]
-  | cons t a ih => simp [Linked, lastEnd, ih, and_assoc]
-
-theorem lastEnd_append (p : Pos) (a b : List Tok) : lastEnd p (a ++ b) = lastEnd (lastEnd p a) b := by
-  induction a generalizing p with
-  | nil => simp [lastEnd]
-  | cons t a ih => simp [lastEnd, ih]
-
-/-- invariant of the loop at column `col` of line `i` -/
-def StInv (i col : Nat) (st : St) : Prop :=
-  match st.span with
-  | none => st.prevEnd = ⟨1 + i, col + 1⟩ ∨ (col = 0 ∧ st.prevEnd.line < 1 + i)
-  | some sp => Rel st.prevEnd sp.start ∧ sp.start < ⟨1 + i, col + 1⟩
-
-theorem StInv_next {i col : Nat} {st : St} (h : StInv i col st) : StInv (i + 1) 0 st := by
-  unfold StInv at *
-  split
-  · rename_i hs; simp only [hs] at h
-    right; refine ⟨rfl, ?_⟩
-    rcases h with h | h
-    · rw [h]; simp
-    · omega
-  · rename_i sp hs; simp only [hs] at h
-    refine ⟨h.1, ?_⟩
-    have := h.2; simp only [Pos.lt_def] at this ⊢; omega
-
-theorem Run_linked {cfg : Cfg} {re : Re} {i : Nat} {line : List Char} {col : Nat} {st st' : St}
-    {ts : List Tok} (h : Run cfg re i line col st st' ts) : StInv i col st →
-    Linked st.prevEnd ts ∧ (∀ t ∈ ts, t.s < t.e) ∧ st'.prevEnd = lastEnd st.prevEnd ts ∧
-      ∃ col', StInv i col' st' := by
-  induction h with
-  | done _ => intro hinv; exact ⟨trivial, by simp, rfl, _, hinv⟩
-  | @spanMiss col st sp hlt hs hb =>
-    intro hinv
-    refine ⟨trivial, by simp, rfl, col, ?_⟩
-    unfold StInv at *; simp only [hs] at hinv; exact hinv
-  | @spanClose col st sp m st' ts hlt hs hb hadv hrun ih =>
-    intro hinv
-    have hinv1 : StInv i m.stop ⟨⟨1 + i, m.stop + 1⟩, none⟩ := by unfold StInv; simp
-    obtain ⟨h1, h2, h3, h4⟩ := ih hinv1
-    unfold StInv at hinv; simp only [hs] at hinv
-    refine ⟨⟨hinv.1, h1⟩, ?_, h3, h4⟩
-    intro t ht
-    simp at ht
-    rcases ht with rfl | ht
-    · have := hinv.2
-      simp only [Pos.lt_def, spanTok] at this ⊢; omega
-    · exact h2 _ ht
-  | @opener col st m st' ts hlt hs hm hadv hk hrun ih =>
-    intro hinv
-    unfold StInv at hinv; simp only [hs] at hinv
-    apply ih
-    unfold StInv; simp only
+/-- the run-time check of the driver establishes the hypothesis `ReIn` -/
+theorem reOfTable_in (sk : List Nat) (lines : List (List Char)) (tbl : List LineTbl)
+    (h : tableOk sk lines tbl = true) : ReIn (reOfTable sk tbl) lines := by
+  induction lines generalizing tbl with
+  | nil =>
     constructor
-    · rcases hinv with h | h
-      · left; exact h
-      · right; simp; omega
-    · simp only [Pos.lt_def, true_and]; omega
-  | @token col st m st' ts hlt hs hm hadv hk hrun ih =>
-    intro hinv
-    have hinv1 : StInv i m.stop ⟨⟨1 + i, m.stop + 1⟩, none⟩ := by unfold StInv; simp
-    obtain ⟨h1, h2, h3, h4⟩ := ih hinv1
-    unfold StInv at hinv; simp only [hs] at hinv
-    refine ⟨⟨?_, h1⟩, ?_, h3, h4⟩
-    · rcases hinv with h | h
-      · left; exact h
-      · right; simp [plainTok]; omega
-    · intro t ht
-      simp at ht
-      rcases ht with rfl | ht
-      · simp only [Pos.lt_def, plainTok, true_and]; omega
-      · exact h2 _ ht
+    · intro i c m l _ hl; simp at hl
+    · intro k i c m l _ hl; simp at hl
+  | cons l0 ls ih =>
+    cases tbl with
+    | nil => simp [tableOk] at h
+    | cons r rs =>
+      simp only [tableOk, Bool.and_eq_true] at h
+      obtain ⟨⟨⟨⟨⟨_, _⟩, _⟩, hn⟩, hb⟩, hrest⟩ := h
+      obtain ⟨ih1, ih2⟩ := ih rs hrest
+      constructor
+      · intro i c m l hm hl
+        cases i with
+        | zero =>
+          simp at hl; subst hl
+          simp only [reOfTable, List.getElem?_cons_zero] at hm
+          split at hm
+          · rename_i e he
+            subst hm
+            have hmem := List.mem_of_getElem? he
+            have := List.all_eq_true.mp hn _ hmem
+            simpa [entryIn] using this
+          · cases hm
+        | succ i =>
+          simp at hl
+          exact ih1 i c m l (by simpa [reOfTable] using hm) hl
+      · intro k i c m l hm hl
+        cases i with
+        | zero =>
+          simp at hl; subst hl
+          simp only [reOfTable, List.getElem?_cons_zero] at hm
+          split at hm
+          · rename_i r' j hr hj
+            cases hr
+            split at hm
+            · rename_i row hrow
+              split at hm
+              · rename_i e he
+                subst hm
+                have hmem := List.mem_of_getElem? he
+                have hrmem := List.mem_of_getElem? hrow
+                have := List.all_eq_true.mp (List.all_eq_true.mp hb _ hrmem) _ hmem
+                simpa [entryIn] using this
+              · cases hm
+            · cases hm
+          · cases hm
+        | succ i =>
+          simp at hl
+          exact ih2 k i c m l (by simpa [reOfTable] using hm) hl
 
-theorem RunLines_linked {cfg : Cfg} {re : Re} {i : Nat} {lines : List (List Char)} {st st' : St}
-    {ts : List Tok} (h : RunLines cfg re i lines st st' ts) : StInv i 0 st →
-    Linked st.prevEnd ts ∧ (∀ t ∈ ts, t.s < t.e) ∧ st'.prevEnd = lastEnd st.prevEnd ts := by
-  induction h with
-  | nil => intro _; exact ⟨trivial, by simp, rfl⟩
-  | cons h1 _ ih =>
-    intro hinv
-    obtain ⟨a1, a2, a3, _, a4⟩ := Run_linked h1 hinv
-    obtain ⟨b1, b2, b3⟩ := ih (StInv_next a4)
-    refine ⟨(Linked_append _ _ _).mpr ⟨a1, a3 ▸ b1⟩, ?_, ?_⟩
-    · intro t ht
-      rcases List.mem_append.mp ht with h | h
-      · exact a2 _ h
-      · exact b2 _ h
-    · rw [lastEnd_append, ← a3, b3]
 
-theorem tokenize_ok {cfg : Cfg} {re : Re} {lines : List (List Char)} {toks : List Tok}
-    (h : tokenize Bases.std cfg re lines = .ok toks) :
-    ∃ st ts, RunLines cfg re 0 lines ⟨⟨1, 1⟩, none⟩ st ts ∧ st.span = none ∧
-      toks = ts ++ [endTok cfg st.prevEnd] := by
-  unfold tokenize at h
-  split at h
-  · cases h
-  · rename_i st ts hs
-    split at h
-    · cases h
-    · rename_i hn
-      cases h
-      exact ⟨st, ts, scanLines_run _ _ _ _ _ _ _ hs, hn, rfl⟩
+theorem mem_dropLast_filter_snoc {α} (q : α → Bool) (ts : List α) (e x : α)
+    (h : x ∈ ((ts ++ [e]).filter q).dropLast) : x ∈ ts := by
+  rw [List.filter_append] at h
+  by_cases hq : q e = true
+  · simp [List.filter, hq] at h
+    exact h.1
+  · simp [List.filter, hq] at h
+    exact (List.mem_filter.mp (List.dropLast_subset _ h)).1
 
-theorem StInv_init : StInv 0 0 ⟨⟨1, 1⟩, none⟩ := by unfold StInv; simp
-
-theorem Linked_get {p : Pos} {l : List Tok} (h : Linked p l) {k : Nat} {t u : Tok}
-    (ht : l[k]? = some t) (hu : l[k + 1]? = some u) : Rel t.e u.s := by
-  induction l generalizing p k with
-  | nil => simp at ht
-  | cons a l ih =>
-    cases k with
-    | zero =>
-      simp at ht; subst ht
-      cases l with
-      | nil => simp at hu
-      | cons b l => simp at hu; subst hu; exact h.2.1
-    | succ k =>
-      simp at ht hu
-      exact ih h.2 ht hu
-
-theorem Linked_head {p : Pos} {l : List Tok} (h : Linked p l) {t : Tok} (ht : l[0]? = some t) :
-    Rel p t.s := by
-  cases l with
-  | nil => simp at ht
-  | cons a l => simp at ht; subst ht; exact h.1
-
-theorem Linked_lower {p : Pos} {l : List Tok} (h : Linked p l) (hw : ∀ t ∈ l, t.s ≤ t.e) :
-    ∀ t ∈ l, p ≤ t.s := by
-  induction l generalizing p with
-  | nil => simp
-  | cons a l ih =>
-    intro t ht
-    simp at ht
-    rcases ht with rfl | ht
-    · exact h.1.le
-    · exact Pos.le_trans (Pos.le_trans h.1.le (hw a (by simp))) (ih h.2 (fun t ht => hw t (by simp [ht])) t ht)
-
-theorem Linked_pairwise {p : Pos} {l : List Tok} (h : Linked p l) (hw : ∀ t ∈ l, t.s ≤ t.e) :
-    l.Pairwise (fun t u => t.e ≤ u.s) := by
-  induction l generalizing p with
-  | nil => simp
-  | cons a l ih =>
-    simp only [List.pairwise_cons]
-    exact ⟨Linked_lower h.2 (fun t ht => hw t (by simp [ht])), ih h.2 (fun t ht => hw t (by simp [ht]))⟩
-
-theorem tokenize_linked {cfg : Cfg} {re : Re} {lines : List (List Char)} {toks : List Tok}
-    (h : tokenize Bases.std cfg re lines = .ok toks) :
-    ∃ ts p, toks = ts ++ [endTok cfg p] ∧ Linked ⟨1, 1⟩ toks ∧ (∀ t ∈ ts, t.s < t.e) := by
-  obtain ⟨st, ts, hrun, _, rfl⟩ := tokenize_ok h
-  obtain ⟨h1, h2, h3⟩ := RunLines_linked hrun StInv_init
-  refine ⟨ts, st.prevEnd, rfl, ?_, h2⟩
-  refine (Linked_append _ _ _).mpr ⟨h1, ?_, trivial⟩
-  left; exact h3.symm
-
-/-! ## where a token comes from -/
-
-/-- the token was made from one match of the ordinary matcher at column `c` of line `i` -/
-def IsPlain (cfg : Cfg) (re : Re) (lines : List (List Char)) (t : Tok) (i c : Nat) (m : Match) : Prop :=
-  ∃ line, lines[i]? = some line ∧ c < line.length ∧ re.norm i c = some m ∧ c < m.stop ∧
-    ¬ m.kind ∈ cfg.spanKinds ∧ t = plainTok cfg i line c m
-
-/-- an opener matched at column `c` of line `i` -/
-def IsOpener (cfg : Cfg) (re : Re) (lines : List (List Char)) (i c : Nat) (m : Match) : Prop :=
-  ∃ line, lines[i]? = some line ∧ c < line.length ∧ re.norm i c = some m ∧ c < m.stop ∧
-    m.kind ∈ cfg.spanKinds
-
-/-- the token is a span token: opener `m` at `(i, c)`, closer found by the body matcher of that opener
-at `(j, d)`, behind the opener -/
-def IsSpanTok (cfg : Cfg) (re : Re) (lines : List (List Char)) (t : Tok) (i c : Nat) (m : Match)
-    (j d : Nat) (m' : Match) : Prop :=
-  IsOpener cfg re lines i c m ∧
-  (∃ lj, lines[j]? = some lj ∧ d < lj.length) ∧ re.body m.kind j d = some m' ∧ d < m'.stop ∧
-  (i < j ∨ (i = j ∧ m.stop ≤ d)) ∧
-  t.name = cfg.syn m.kind ∧ t.s = ⟨1 + i, c + 1⟩ ∧ t.e = ⟨1 + j, m'.stop + 1⟩
-
-def SpOrig (cfg : Cfg) (re : Re) (lines : List (List Char)) (i col : Nat) (sp : SpanSt) : Prop :=
-  ∃ i0 c m, IsOpener cfg re lines i0 c m ∧ sp.kind = m.kind ∧ sp.start = ⟨1 + i0, c + 1⟩ ∧
-    (i0 < i ∨ (i0 = i ∧ m.stop ≤ col))
-
-def Origin (cfg : Cfg) (re : Re) (lines : List (List Char)) (t : Tok) : Prop :=
-  (∃ i c m, IsPlain cfg re lines t i c m) ∨ (∃ i c m j d m', IsSpanTok cfg re lines t i c m j d m')
-
-theorem Run_origin {cfg : Cfg} {re : Re} {all : List (List Char)} {i : Nat} {line : List Char} {col : Nat}
-    {st st' : St} {ts : List Tok} (h : Run cfg re i line col st st' ts) (hl : all[i]? = some line) :
-    (∀ sp, st.span = some sp → SpOrig cfg re all i col sp) →
-    (∀ t ∈ ts, Origin cfg re all t) ∧ (∀ sp, st'.span = some sp → SpOrig cfg re all (i + 1) 0 sp) := by
-  have weaken : ∀ col sp, SpOrig cfg re all i col sp → SpOrig cfg re all (i + 1) 0 sp := by
-    intro col sp ⟨i0, c, m, h1, h2, h3, h4⟩
-    exact ⟨i0, c, m, h1, h2, h3, by omega⟩
-  induction h with
-  | done _ => intro hsp; exact ⟨by simp, fun sp hs => weaken _ _ (hsp sp hs)⟩
-  | @spanMiss col st sp hlt hs hb =>
-    intro hsp
-    refine ⟨by simp, ?_⟩
-    intro sp' hs'
-    simp at hs'; subst hs'
-    obtain ⟨i0, c, m, h1, h2, h3, h4⟩ := hsp sp hs
-    exact ⟨i0, c, m, h1, h2, h3, by omega⟩
-  | @spanClose col st sp m' st' ts hlt hs hb hadv hrun ih =>
-    intro hsp
-    obtain ⟨h1, h2⟩ := ih (by intro sp h; simp at h)
-    refine ⟨?_, h2⟩
-    intro t ht
-    simp at ht
-    rcases ht with rfl | ht
-    · obtain ⟨i0, c, m, g1, g2, g3, g4⟩ := hsp sp hs
-      right
-      refine ⟨i0, c, m, i, col, m', g1, ⟨line, hl, hlt⟩, g2 ▸ hb, hadv, g4, ?_, g3, rfl⟩
-      simp [spanTok, g2]
-    · exact h1 t ht
-  | @opener col st m st' ts hlt hs hm hadv hk hrun ih =>
-    intro hsp
-    apply ih
-    intro sp h
-    simp at h; subst h
-    exact ⟨i, col, m, ⟨line, hl, hlt, hm, hadv, hk⟩, rfl, rfl, Or.inr ⟨rfl, Nat.le_refl _⟩⟩
-  | @token col st m st' ts hlt hs hm hadv hk hrun ih =>
-    intro hsp
-    obtain ⟨h1, h2⟩ := ih (by intro sp h; simp at h)
-    refine ⟨?_, h2⟩
-    intro t ht
-    simp at ht
-    rcases ht with rfl | ht
-    · left; exact ⟨i, col, m, line, hl, hlt, hm, hadv, hk, rfl⟩
-    · exact h1 t ht
-
-theorem RunLines_origin {cfg : Cfg} {re : Re} {all : List (List Char)} {i : Nat} {lines : List (List Char)}
-    {st st' : St} {ts : List Tok} (h : RunLines cfg re i lines st st' ts) (hd : all.drop i = lines) :
-    (∀ sp, st.span = some sp → SpOrig cfg re all i 0 sp) →
-    (∀ t ∈ ts, Origin cfg re all t) ∧
-      (∀ sp, st'.span = some sp → ∃ i' , SpOrig cfg re all i' 0 sp) := by
-  induction h with
-  | nil => intro hsp; exact ⟨by simp, fun sp hs => ⟨_, hsp sp hs⟩⟩
-  | @cons i l ls st st1 st2 ts1 ts2 h1 _ ih =>
-    intro hsp
-    have hl : all[i]? = some l := by
-      have := congrArg (fun x => x[0]?) hd
-      simpa using this
-    have hd' : all.drop (i + 1) = ls := by
-      have := congrArg (fun x => x.drop 1) hd
-      simpa using this
-    obtain ⟨a1, a2⟩ := Run_origin h1 hl hsp
-    obtain ⟨b1, b2⟩ := ih hd' a2
-    refine ⟨?_, b2⟩
+/-- the token list of a text satisfies the hypothesis of `spanT_spec`, as long as `$END$` is not
+consumed -/
+theorem noEq_of_tokens {p0 : Pos} {ts : List Tok} {e : Tok} (hl : Linked p0 (ts ++ [e]))
+    (hne : ∀ t ∈ ts, t.s < t.e) (he : e.s ≤ e.e) (skip : List Nat) :
+    NoEq ((dropSkipped skip (ts ++ [e])).map Tok.span)
+      (((dropSkipped skip (ts ++ [e])).map Tok.span).length - 1) := by
+  have hw : ∀ t ∈ ts ++ [e], t.s ≤ t.e := by
     intro t ht
     rcases List.mem_append.mp ht with h | h
-    · exact a1 t h
-    · exact b1 t h
+    · exact Pos.le_of_lt (hne t h)
+    · simp at h; subst h; exact he
+  have hpw := Linked_pairwise hl hw
+  have hpw2 : ((dropSkipped skip (ts ++ [e])).map Tok.span).Pairwise (fun x y => x.e ≤ y.s) := by
+    rw [List.pairwise_map]
+    exact hpw.filter _
+  generalize hL : (dropSkipped skip (ts ++ [e])).map Tok.span = L at *
+  have hdl : ∀ x ∈ L.dropLast, x.s < x.e := by
+    intro x hx
+    rw [← hL, ← List.map_dropLast] at hx
+    obtain ⟨t, ht, rfl⟩ := List.mem_map.mp hx
+    exact hne t (mem_dropLast_filter_snoc _ ts e t ht)
+  intro a b sa sb hab hb ha' hb'
+  have hbm : sb ∈ L.dropLast := by
+    have : L.dropLast[b]? = some sb := by
+      rw [List.getElem?_dropLast]; simp [hb, hb']
+    exact List.mem_of_getElem? this
+  have ham : sa ∈ L.dropLast := by
+    have : L.dropLast[a]? = some sa := by
+      rw [List.getElem?_dropLast]; simp [show a < L.length - 1 by omega, ha']
+    exact List.mem_of_getElem? this
+  have h1 := hdl sa ham
+  have h2 := hdl sb hbm
+  by_cases hab' : a = b
+  · subst hab'
+    rw [ha'] at hb'; cases hb'
+    exact Pos.ne_of_lt h1
+  · have hlt : a < b := by omega
+    obtain ⟨hal, hae⟩ := List.getElem?_eq_some_iff.mp ha'
+    obtain ⟨hbl, hbe⟩ := List.getElem?_eq_some_iff.mp hb'
+    have := (List.pairwise_iff_getElem.mp hpw2) a b hal hbl hlt
+    rw [hae, hbe] at this
+    exact Pos.ne_of_lt (Pos.lt_of_lt_of_le h1 (Pos.le_trans this (Pos.le_of_lt h2)))
 
-/-- every token except `$END$` was made from matches of `re` on the text -/
-theorem tokenize_origin {cfg : Cfg} {re : Re} {lines : List (List Char)} {toks : List Tok}
-    (h : tokenize Bases.std cfg re lines = .ok toks) : ∀ t ∈ toks.dropLast, Origin cfg re lines t := by
+
+/-- the text as one string -/
+def flatText : Input → List Char
+  | .str t => t
+  | .lines ls => joinNl ls
+
+theorem joinNl_origLines (inp : Input) : joinNl (origLines inp) = flatText inp := by
+  cases inp with
+  | str t => exact joinNl_splitNl t
+  | lines ls => rfl
+
+/-! ## positions inside the text; text of a node -/
+
+/-- a position inside the text: column `c` (0-based, may be the end of the line) of line `i` -/
+def Valid (lines : List (List Char)) (p : Pos) : Prop :=
+  ∃ i c l, lines[i]? = some l ∧ c ≤ l.length ∧ p = ⟨1 + i, c + 1⟩
+
+theorem Valid.ext {lines olines : List (List Char)} (hext : Ext lines olines) {p : Pos}
+    (h : Valid lines p) : Valid olines p := by
+  obtain ⟨i, c, l, hl, hc, rfl⟩ := h
+  obtain ⟨r, hr⟩ := hext i l hl
+  exact ⟨i, c, _, hr, by simp; omega, rfl⟩
+
+theorem origin_valid {cfg : Cfg} {re : Re} {lines : List (List Char)} {t : Tok}
+    (ho : Origin cfg re lines t) (hre : ReIn re lines) : Valid lines t.s ∧ Valid lines t.e := by
+  rcases ho with ⟨i, c, m, line, hl, hc, hm, hadv, _, rfl⟩ |
+    ⟨i, c, m, j, d, m', ⟨li, hli, hc, hm, _⟩, ⟨lj, hlj, hd⟩, hb, _, _, _, hts, hte⟩
+  · exact ⟨⟨i, c, line, hl, by omega, rfl⟩, ⟨i, m.stop, line, hl, hre.1 i c m line hm hl, rfl⟩⟩
+  · exact ⟨⟨i, c, li, hli, by omega, hts⟩, ⟨j, m'.stop, lj, hlj, hre.2 _ j d m' lj hb hlj, hte⟩⟩
+
+theorem lastEnd_mem (p : Pos) (ts : List Tok) (h : ts ≠ []) : ∃ t ∈ ts, lastEnd p ts = t.e := by
+  induction ts generalizing p with
+  | nil => exact absurd rfl h
+  | cons a as ih =>
+    cases as with
+    | nil => exact ⟨a, by simp, rfl⟩
+    | cons b bs =>
+      obtain ⟨t, ht, he⟩ := ih a.e (by simp)
+      exact ⟨t, List.mem_cons_of_mem _ ht, he⟩
+
+theorem lastEnd_getLast (p : Pos) (ts : List Tok) (t : Tok) (h : ts.getLast? = some t) :
+    lastEnd p ts = t.e := by
+  induction ts generalizing p with
+  | nil => simp at h
+  | cons a as ih =>
+    cases as with
+    | nil => simp at h; subst h; rfl
+    | cons b bs => exact ih a.e (by simpa using h)
+
+/-- every position carried by a token (`$END$` included) lies inside the text -/
+theorem tokens_valid {cfg : Cfg} {re : Re} {lines : List (List Char)} {toks : List Tok}
+    (h : tokenize Bases.std cfg re lines = .ok toks) (hre : ReIn re lines) (hne : lines ≠ []) :
+    ∀ t ∈ toks, Valid lines t.s ∧ Valid lines t.e := by
+  have horig := tokenize_origin h
   obtain ⟨st, ts, hrun, _, rfl⟩ := tokenize_ok h
-  have := (RunLines_origin (all := lines) hrun (by simp) (by intro sp h; simp at h)).1
-  simpa using this
+  obtain ⟨_, _, h3, _⟩ := RunLines_linked hrun StInv_init
+  simp only [List.dropLast_concat] at horig
+  intro t ht
+  rcases List.mem_append.mp ht with h | h
+  · exact origin_valid (horig t h) hre
+  · simp at h; subst h
+    have : Valid lines st.prevEnd := by
+      rw [h3]
+      by_cases hts : ts = []
+      · subst hts
+        cases lines with
+        | nil => exact absurd rfl hne
+        | cons l ls => exact ⟨0, 0, l, by simp, by omega, rfl⟩
+      · obtain ⟨t, ht, he⟩ := lastEnd_mem ⟨1, 1⟩ ts hts
+        rw [he]; exact (origin_valid (horig t ht) hre).2
+    exact ⟨this, this⟩
+
+/-- `get_orig_text` of any span between two positions of the text is the text between them -/
+theorem getOrigText_valid {lines : List (List Char)} {s e : Pos} (hs : Valid lines s) (he : Valid lines e)
+    (hle : s ≤ e) :
+    ∃ i a j b, s = ⟨1 + i, a + 1⟩ ∧ e = ⟨1 + j, b + 1⟩ ∧
+      getOrigText Bases.std lines s e = .ok (slice (joinNl lines) (offset lines i a) (offset lines j b)) := by
+  obtain ⟨i, a, li, hli, ha, rfl⟩ := hs
+  obtain ⟨j, b, lj, hlj, hb, rfl⟩ := he
+  refine ⟨i, a, j, b, rfl, rfl, getOrigText_flat hli hlj ha hb ?_⟩
+  simp only [Pos.le_def] at hle; omega
+
+/-- `get_orig_text` of a node whose span is as `Good` says is the text from the start of its first token
+to the end of its last token -/
+theorem good_orig {L : List Span} {olines : List (List Char)}
+    (hv : ∀ x ∈ L, Valid olines x.s ∧ Valid olines x.e) (hpw : L.Pairwise (fun x y => x.e ≤ y.s))
+    (hw : ∀ x ∈ L, x.s ≤ x.e) {n : NodeInfo} (hg : Good L n) :
+    ∃ i a j b, n.span.s = ⟨1 + i, a + 1⟩ ∧ n.span.e = ⟨1 + j, b + 1⟩ ∧
+      getOrigText Bases.std olines n.span.s n.span.e =
+        .ok (slice (joinNl olines) (offset olines i a) (offset olines j b)) := by
+  obtain ⟨hle, first, hf, h1, h2⟩ := hg
+  have hfm := List.mem_of_getElem? hf
+  by_cases heq : n.lo = n.hi
+  · rw [h1 heq]
+    exact getOrigText_valid (hv first hfm).1 (hv first hfm).1 (Pos.le_refl _)
+  · obtain ⟨last, hl, hsp⟩ := h2 (by omega)
+    have hlm := List.mem_of_getElem? hl
+    rw [hsp]
+    have key : first.s ≤ last.e := by
+      by_cases h3 : n.lo = n.hi - 1
+      · have : first = last := by rw [h3, hl] at hf; cases hf; rfl
+        rw [this]; exact hw last hlm
+      · obtain ⟨ha, hae⟩ := List.getElem?_eq_some_iff.mp hf
+        obtain ⟨hb, hbe⟩ := List.getElem?_eq_some_iff.mp hl
+        have := (List.pairwise_iff_getElem.mp hpw) n.lo (n.hi - 1) ha hb (by omega)
+        rw [hae, hbe] at this
+        exact Pos.le_trans (hw first hfm) (Pos.le_trans this (hw last hlm))
+    exact getOrigText_valid (hv first hfm).1 (hv last hlm).2 key
+
 
 end SrcPos
